@@ -881,6 +881,115 @@ def malformed_strings(ck, case, leaves):
     return out
 
 
+# ------------------------------------------------------------------------------------------ collapse, both orders
+def collapse_reference(sv, n, q, r, order):
+    """Independent projection in the documented index convention: 'lsq_first' = qubit 0 is the most significant of
+    the n index bits (cirq), 'msq_first' = qubit 0 is the least significant one."""
+    idx = np.arange(1 << n)
+    bit = (idx >> (n - 1 - q)) & 1 if order == "lsq_first" else (idx >> q) & 1
+    w = np.where(bit == r, sv, 0)
+    p = float(np.vdot(w, w).real)
+    return w, p
+
+
+def collapse_checks(ck):
+    """Direct oracle on collapse_statevector_to_desired_measurement for BOTH orders (and on the cirq backend's method /
+    perform_measurement): random asymmetric states of 2-4 qubits, every qubit, both outcomes; probability, normalised
+    post-measurement state, zero-probability and argument errors; the kept index set is also compared with the Coq
+    model collapse_keep."""
+    from tangelo.linq import get_backend
+    from tangelo.linq.target import backend as bmod
+    rng = ck.rng
+    ck.stream("collapse", "collapse_statevector_to_desired_measurement(sv, q, r, order) for order in {lsq_first, msq_first}, "
+              "n = 2..4, every qubit, both outcomes, random complex states with pairwise distinct moduli, basis states "
+              "(zero probability), invalid arguments; + Backend method and perform_measurement of the cirq backend; "
+              "non-trivial = both outcomes possible")
+    sim = get_backend("cirq")
+    exprs, keys = [], []
+    reps = 2 if ck.tier == "quick" else 12
+    for n in (2, 3, 4):
+        for rep in range(reps):
+            sv = np.array([complex(rng.uniform(-1, 1), rng.uniform(-1, 1)) * (1 + 0.37 * i) for i in range(1 << n)])
+            sv = sv / np.linalg.norm(sv)
+            basis = np.zeros(1 << n, dtype=complex)
+            basis[rng.randrange(1 << n)] = 1
+            for order in ("lsq_first", "msq_first"):
+                for q in range(n):
+                    for r in (0, 1):
+                        replay = {"kind": "collapse", "n": n, "q": q, "r": r, "order": order,
+                                  "sv": [[float(z.real), float(z.imag)] for z in sv]}
+                        bad = collapse_one(bmod, sim, sv, n, q, r, order)
+                        ck.case("collapse", json.dumps([n, rep, order, q, r]), nontrivial=True,
+                                sample={"n": n, "q": q, "r": r, "order": order}, tags=[order, "n=%d" % n])
+                        for kind, desc in bad:
+                            ck.violation("C10/collapse/%s/%s" % (order, kind),
+                                         "collapse_statevector_to_desired_measurement(n=%d, qubit=%d, result=%d, order=%s): %s"
+                                         % (n, q, r, order, desc), replay)
+                        # zero probability: a basis state
+                        w, p = collapse_reference(basis, n, q, r, order)
+                        replay_b = dict(replay, sv=[[float(z.real), float(z.imag)] for z in basis])
+                        try:
+                            got, gp = bmod.collapse_statevector_to_desired_measurement(basis, q, r, order)
+                            if p < 0.5:
+                                ck.violation("C10/collapse/%s/zero-probability-accepted" % order,
+                                             "basis state, qubit %d, result %d: no ValueError, returned p=%r" % (q, r, gp), replay_b)
+                            elif abs(gp - 1) > TOL or np.max(np.abs(np.array(got) - basis)) > TOL:
+                                ck.violation("C10/collapse/%s/state" % order, "basis state not returned unchanged with p=1 "
+                                             "(qubit %d, result %d): p=%r" % (q, r, gp), replay_b)
+                        except ValueError:
+                            if p > 0.5:
+                                ck.violation("C10/collapse/%s/possible-outcome-rejected" % order,
+                                             "basis state, qubit %d, result %d has probability 1 but ValueError was raised" % (q, r), replay_b)
+                        if rep == 0:
+                            oc = "LsqFirst" if order == "lsq_first" else "MsqFirst"
+                            exprs.append('String.concat "" (map (fun i => if collapse_keep %s %d%%N %d%%N %d%%N (N.of_nat i) '
+                                         'then "1" else "0") (seq 0 %d))' % (oc, n, q, r, 1 << n))
+                            got, _ = bmod.collapse_statevector_to_desired_measurement(sv, q, r, order)
+                            keys.append((n, q, r, order, "".join("1" if abs(z) > 1e-12 else "0" for z in got)))
+            # argument checks (model: collapse_check)
+            for (q, r) in ((n, 0), (0, 2), (n + 1, 1)):
+                try:
+                    bmod.collapse_statevector_to_desired_measurement(sv, q, r, "lsq_first")
+                    ck.violation("C10/collapse/argument-check", "qubit=%d result=%d accepted on %d qubits" % (q, r, n),
+                                 {"kind": "collapse-args", "n": n, "q": q, "r": r})
+                except ValueError:
+                    pass
+    try:
+        model = ck.coq_eval("collapse", PREAMBLE, exprs, jobs=1)
+        for (n, q, r, order, pat), m in zip(keys, model):
+            if pat != m:
+                ck.violation("C10/correspondence/collapse_keep", "n=%d qubit=%d result=%d order=%s: implementation keeps indices %s, "
+                             "model collapse_keep %s" % (n, q, r, order, pat, m),
+                             {"kind": "collapse-model", "n": n, "q": q, "r": r, "order": order}, found_input=False)
+    except Exception as e:  # noqa
+        ck.violation("C10/correspondence/model-evaluation", "the Coq model could not be evaluated: %s" % str(e)[-1500:],
+                     {"kind": "model", "error": str(e)[-3000:]}, found_input=False)
+
+
+def collapse_one(bmod, sim, sv, n, q, r, order):
+    """Problems of one call (function; for lsq_first also the cirq backend's method and perform_measurement)."""
+    w, p = collapse_reference(sv, n, q, r, order)
+    ref = w / math.sqrt(p)
+    bad = []
+    calls = [("function", lambda: bmod.collapse_statevector_to_desired_measurement(sv.copy(), q, r, order))]
+    if order == sim.backend_info()["statevector_order"]:
+        calls.append(("Backend method", lambda: sim.collapse_statevector_to_desired_measurement(sv.copy(), q, r)))
+        calls.append(("perform_measurement", lambda: sim.perform_measurement(sv.copy(), q, str(r))[1:]))
+    for name, call in calls:
+        try:
+            got, gp = call()
+        except Exception as e:  # noqa
+            bad.append(("exception", "%s raised %r on a state where the outcome has probability %.6g" % (name, e, p)))
+            continue
+        if abs(gp - p) > TOL:
+            bad.append(("probability", "%s returned probability %r, Born probability %.12g" % (name, gp, p)))
+        got = np.array(got)
+        if got.shape != ref.shape or np.max(np.abs(got - ref)) > 1e-9:
+            bad.append(("state", "%s: returned state is not the normalised projection in the %s convention "
+                        "(max deviation %.3g)" % (name, order, float(np.max(np.abs(got.reshape(-1)[:ref.size] - ref))) if got.size >= ref.size else -1)))
+    return bad
+
+
 # ------------------------------------------------------------------------------------------ main
 def run(ck):
     ck.trusted = ["Coq 8.16.1 kernel (coqc), vm_compute",
@@ -919,6 +1028,10 @@ def run(ck):
     except Exception as e:  # noqa
         ck.violation("C10/import", "tangelo.linq cannot be imported: %r" % e, {"kind": "import"}, found_input=False)
         return
+    try:
+        collapse_checks(ck)
+    except Exception as e:  # noqa
+        ck.violation("C10/collapse/harness", "collapse oracle could not run: %r" % e, {"kind": "crash"}, found_input=False)
     # ---- witness of the refuted statement first: which variant of the loop does the source implement? ----
     asis = witness_fails_on_impl()
     ck.notes["loop_variant"] = "as-is (precirc padded with len(qubits) after extension)" if asis else "repaired"
@@ -1017,6 +1130,21 @@ def run(ck):
 
 def replay(data):
     r = data["replay"]
+    if r.get("kind") == "collapse":
+        from tangelo.linq import get_backend
+        from tangelo.linq.target import backend as bmod
+        sv = np.array([complex(a, b) for a, b in r["sv"]])
+        w, p = collapse_reference(sv, r["n"], r["q"], r["r"], r["order"])
+        if p < 1e-12:
+            try:
+                bmod.collapse_statevector_to_desired_measurement(sv, r["q"], r["r"], r["order"])
+                return 1
+            except ValueError:
+                return 0
+        bad = collapse_one(bmod, get_backend("cirq"), sv, r["n"], r["q"], r["r"], r["order"])
+        for b in bad:
+            print(b)
+        return 1 if bad else 0
     if r.get("kind") == "records":
         case = r["case"]
         psi0 = psi0_of(case)
